@@ -440,11 +440,31 @@ func cmdCheck(args []string) int {
 		secs = 60
 		all = true
 	}
+	if v := os.Getenv("SONICVC_SECS"); v != "" {
+		fmt.Sscanf(v, "%d", &secs) // testing aid: per-query limit
+	}
 	wd, _ := os.MkdirTemp("/var/tmp", "sonicvc-")
 	defer os.RemoveAll(wd)
 	opt := solveOpts{secs: secs, all: all, workdir: wd, keep: true}
 	filter := func(o *Obligation) bool { return hasProp(o.Props, prop) }
 	res := verifyFunctions(P, C, keys, opt, filter)
+	// an obligation no solver decided within the limit is tried again, on its own and with
+	// four times the limit, before it is reported: a time-out under load is not a violation
+	retried := 0
+	for _, fr := range res {
+		for _, o := range fr.Obls {
+			if o.Result == "unknown" && o.QueryFile != "" {
+				o.Result = ""
+				ro := opt
+				ro.secs = opt.secs * 4
+				runObligationAgain(o, ro)
+				retried++
+			}
+		}
+	}
+	if retried > 0 {
+		fmt.Printf("note: %d obligation(s) undecided within %ds were tried again with %ds\n", retried, opt.secs, opt.secs*4)
+	}
 
 	toolErr := false
 	var allObls []*Obligation
